@@ -59,6 +59,8 @@ type catchAnalysis struct {
 	addCond bool // (*SchemaCtx).AddIssue sets Exit only under CanCatch
 	addIssue *ssa.Function
 	ctors  map[*ssa.Function]fieldSet // constructor -> flags definitely stored false
+	cleanMemo map[*ssa.Function]map[int]map[*types.Var]bool // fn -> param idx -> flags definitely false at exit whatever the entry
+	cleanBusy map[*ssa.Function]bool
 }
 
 type dispatchSite struct {
@@ -117,11 +119,13 @@ func (P *Prog) newCatchAnalysis() *catchAnalysis {
 		}
 		var obj ssa.Value
 		var blk *ssa.BasicBlock
+		var pool *ssa.Global
 		idx := 0
 		eachInstr(fn, func(b *ssa.BasicBlock, i int, in ssa.Instruction) {
 			if ta, ok := in.(*ssa.TypeAssert); ok && P.isPtrTo(ta.AssertedType, R.SchemaCtx) {
 				if c, ok := ta.X.(*ssa.Call); ok && isSyncPoolMethod(callOf(c), "Get") {
 					obj, blk, idx = ta, b, i
+					pool, _ = c.Call.Args[0].(*ssa.Global)
 				}
 			}
 			if al, ok := in.(*ssa.Alloc); ok && al.Heap && sameNamed(al.Type().(*types.Pointer).Elem(), R.SchemaCtx) {
@@ -134,6 +138,23 @@ func (P *Prog) newCatchAnalysis() *catchAnalysis {
 		ms := &mustStore{P: P, fn: fn, st: R.SchemaCtx.Underlying().(*types.Struct), isObj: func(v ssa.Value) bool { return v == obj },
 			valOK: func(v ssa.Value) bool { b, ok := constBool(v); return ok && !b }}
 		fs := ms.run(blk, idx)
+		// flags reset to false before every Put into the pool (wipe on release) are clean at every Get as well,
+		// unless the constructor stores something else into them
+		if pool != nil {
+			for f := range P.wipedOnRelease(pool, R.SchemaCtx.Underlying().(*types.Struct), func(v ssa.Value) bool { b, ok := constBool(v); return ok && !b }) {
+				storedHere := false
+				eachInstr(fn, func(_ *ssa.BasicBlock, _ int, in ssa.Instruction) {
+					if st, ok := in.(*ssa.Store); ok {
+						if b, ff := fieldVar(st.Addr); ff != nil && ff.Origin() == f && cv(b) == obj {
+							storedHere = true
+						}
+					}
+				})
+				if !storedHere {
+					fs[f] = true
+				}
+			}
+		}
 		if al, ok := obj.(*ssa.Alloc); ok && al != nil {
 			// fresh zeroed allocation: all flags false unless stored otherwise — treat as clean only for must-stored-false or never-stored flags
 			for _, f := range ca.flags {
@@ -526,7 +547,15 @@ func (ca *catchAnalysis) run(fn *ssa.Function, init flagState) ([]dispatchSite, 
 						case ci.invoke != nil && ci.invoke.Name() == "AddIssue", ci.static != nil && ci.static == ca.addIssue:
 							ca.applyAddIssue(cur)
 						case ci.static != nil && inModule(funcPkgPath(ci.static)):
-							for fl := range ca.exitDirty(ci.static, ai) {
+							// a helper that re-initialises the context (`subCtx.NextChild(...)`): the flags it stores
+							// `false` on every path, and does not set again, are clean afterwards whatever they were
+							dirtyOut := ca.exitDirty(ci.static, ai)
+							for fl := range ca.exitClean(ci.static, ai) {
+								if !dirtyOut[fl] {
+									cur[fl] = false
+								}
+							}
+							for fl := range dirtyOut {
 								cur[fl] = true
 							}
 						case ci.dynamic:
@@ -603,6 +632,62 @@ func (ca *catchAnalysis) applyAddIssue(cur map[*types.Var]bool) {
 	for fl := range ca.exitDirtyNoMemo(ca.addIssue) {
 		cur[fl] = true
 	}
+}
+
+// exitClean: flags of parameter idx of fn that are definitely false when fn returns even if they were set on
+// entry: the analysis of fn started with every flag of that parameter dirty (dirty wins at joins, so a flag is
+// clean at exit only if every path stores false into it after its last possible setting).
+func (ca *catchAnalysis) exitClean(fn *ssa.Function, idx int) map[*types.Var]bool {
+	res := map[*types.Var]bool{}
+	if fn == nil || fn.Blocks == nil || idx >= len(fn.Params) || !ca.isCtxVal(fn.Params[idx]) {
+		return res
+	}
+	if ca.cleanMemo == nil {
+		ca.cleanMemo = map[*ssa.Function]map[int]map[*types.Var]bool{}
+		ca.cleanBusy = map[*ssa.Function]bool{}
+	}
+	if m, ok := ca.cleanMemo[fn]; ok {
+		if r, ok := m[idx]; ok {
+			return r
+		}
+	}
+	if ca.cleanBusy[fn] {
+		return res // recursion: claim nothing
+	}
+	// only functions that store a flag at all can clean one
+	stores := false
+	eachInstr(fn, func(_ *ssa.BasicBlock, _ int, in ssa.Instruction) {
+		if st, ok := in.(*ssa.Store); ok {
+			if _, f := fieldVar(st.Addr); f != nil {
+				for _, fl := range ca.flags {
+					if sameField(f, fl) {
+						stores = true
+					}
+				}
+			}
+		}
+	})
+	if stores {
+		ca.cleanBusy[fn] = true
+		init := flagState{fn.Params[idx]: map[*types.Var]bool{}}
+		for _, fl := range ca.flags {
+			init[fn.Params[idx]][fl] = true
+		}
+		_, exit := ca.run(fn, init)
+		delete(ca.cleanBusy, fn)
+		if st, ok := exit[ssa.Value(fn.Params[idx])]; ok {
+			for _, fl := range ca.flags {
+				if !st[fl] {
+					res[fl] = true
+				}
+			}
+		}
+	}
+	if ca.cleanMemo[fn] == nil {
+		ca.cleanMemo[fn] = map[int]map[*types.Var]bool{}
+	}
+	ca.cleanMemo[fn][idx] = res
+	return res
 }
 
 func (ca *catchAnalysis) exitDirtyNoMemo(fn *ssa.Function) map[*types.Var]bool {
@@ -704,7 +789,7 @@ func (P *Prog) allDispatchSites(ca *catchAnalysis) []dispatchSite {
 		if !has {
 			continue
 		}
-		sites, _ := ca.run(fn, nil)
+		sites := ca.runRepeatable(fn)
 		for _, s := range sites {
 			if s.kind == "dispatch" {
 				out = append(out, s)
@@ -712,6 +797,46 @@ func (P *Prog) allDispatchSites(ca *catchAnalysis) []dispatchSite {
 		}
 	}
 	return out
+}
+
+// runRepeatable: run(fn) — and for a closure that can be called more than once (handed to an iteration
+// helper, called in a loop; anything but a closure that is only deferred), the least fixpoint in which the
+// state of every captured context at the closure's entry includes the state the closure itself leaves behind:
+// the second invocation starts where the first one ended.
+func (ca *catchAnalysis) runRepeatable(fn *ssa.Function) []dispatchSite {
+	if fn.Parent() == nil || !escapingClosure(fn) {
+		sites, _ := ca.run(fn, nil)
+		return sites
+	}
+	init := flagState{}
+	var sites []dispatchSite
+	for iter := 0; iter < 6; iter++ {
+		var exit flagState
+		sites, exit = ca.run(fn, init)
+		grown := false
+		for v, fl := range exit {
+			// only values defined outside the closure (captured) survive from one invocation to the next
+			if in, ok := v.(ssa.Instruction); ok && in.Parent() == fn {
+				continue
+			}
+			if p, ok := v.(*ssa.Parameter); ok && p.Parent() == fn {
+				continue
+			}
+			if init[v] == nil {
+				init[v] = map[*types.Var]bool{}
+			}
+			for f, d := range fl {
+				if d && !init[v][f] {
+					init[v][f] = true
+					grown = true
+				}
+			}
+		}
+		if !grown {
+			break
+		}
+	}
+	return sites
 }
 
 // siteName gives a stable construct name: function + callee + ordinal.
